@@ -1260,6 +1260,18 @@ func (r *runner) early(sess *protos.Session, label func(party.ID) string, seed s
 		for _, h := range r.honest {
 			if m.IsFor(h) {
 				fm := sim.CloneMsg(m)
+				if r.sc.Alt != "" {
+					// ... and one of its fields altered, so that it is well-formed but wrong whatever execution it is held against
+					leaves, err := fault.Leaves(m.Data)
+					if err != nil || r.sc.Leaf >= len(leaves) {
+						continue
+					}
+					data, err := fault.Mutate(m.Data, leaves[r.sc.Leaf].Path, r.sc.Alt, nil, r.rng)
+					if err != nil {
+						continue
+					}
+					fm.Data = data
+				}
 				e.SetVar(fm, "mut")
 				r.deliver(h, fm, "ok")
 				n++
